@@ -173,16 +173,14 @@ func attackGoroutines() (alive int, blocked bool) {
 	}
 	blocked = true
 	for _, g := range strings.Split(string(buf), "\n\n") {
-		if !strings.Contains(g, "lib.(*Attacker).attack(") && !strings.Contains(g, "lib.(*Attacker).Attack.func1") {
-			continue
-		}
-		// a goroutine *created by* Attack but running something else does not match the patterns above,
-		// because "created by" lines name Attack / Attack.func1 with " in goroutine"; filter those:
+		// the goroutine's own frames (the "created by" trailer names Attack for every goroutine it starts)
 		first := g
 		if i := strings.Index(g, "\ncreated by"); i >= 0 {
 			first = g[:i]
 		}
-		if !strings.Contains(first, "lib.(*Attacker).attack(") && !strings.Contains(first, "lib.(*Attacker).Attack.func1") {
+		// main loop: Attack.func1 (and its deferred closure); worker: (*Attacker).attack; a goroutine that
+		// was started but has not run yet shows only the go-statement wrapper Attack.gowrapN / Attack.func1.gowrapN
+		if !strings.Contains(first, "lib.(*Attacker).attack(") && !strings.Contains(first, "lib.(*Attacker).Attack.") {
 			continue
 		}
 		alive++
